@@ -106,6 +106,22 @@ SPECS = {
         "probes": ["visit_skip", "visit_stop", "iter_zigzag", "iter_random"],
         "assumptions": ASSUME_COMMON,
     },
+    "C18": {
+        "driver": "simkit.check_c18", "level": "exploration",
+        "runs": {"quick": 3000, "thorough": 300000},
+        "rule": "one shared tree (plain or typed), 1-2 writer threads mutating only inside "
+                "`with tree:` (2+ mutations per critical section with pauses in between, "
+                "sometimes a nested `with tree:` + snapshot), 1-3 reader threads calling save, "
+                "copy, filtered, copy_to, to_dict_list, to_dotfile and `with tree:` itself; "
+                "the seeded scheduler decides every interleaving at lock operations, pauses and "
+                "line events inside nutree. Oracles over the recorded history: snapshot "
+                "linearizability against committed states, no spurious exception, mutual "
+                "exclusion, no deadlock (re-entrancy), no lock leak after callback/stream "
+                "faults, bounded liveness once writers are done. Non-trivial: >= 1 commit, >= 1 "
+                "snapshot op and a snapshot was invoked while a writer was mid critical section "
+                "or blocked on the lock; distinct by digest of (schedule word, history).",
+        "assumptions": [],
+    },
     "C07": {
         "driver": H, "level": "exploration",
         "runs": {"quick": 4000, "thorough": 400000},
@@ -159,6 +175,48 @@ _TB = ("Trusted: CPython 3.12, the reference model and contracts (simkit/model.p
        "argument classes the documentation leaves open are excluded (listed in the evidence file).")
 
 MANIFEST_TEXT = {
+    "C05": {"engine": "StoreSim+HistorySim", "design_ref": "DESIGN.md section 4 C05",
+            "technique": "deterministic simulation: restart fault (save, drop all live objects, load, continue) inside seeded histories under a swarm of storage options",
+            "level_text": "The persistence boundary is a fault step of the history: only the "
+                          "bytes survive. The loaded tree is compared lock-step with the model "
+                          "projected through persistence and the history continues on it, so a "
+                          "clone group that was not really re-registered is found by the "
+                          "following steps. Storage options are swarm parameters.",
+            "level_note": _TB + " Mappers are simulator-supplied inverse pairs (interning by "
+                                "stored value); node metadata is not part of the property."},
+    "C06": {"engine": "HistorySim", "design_ref": "DESIGN.md section 4 C06",
+            "technique": "deterministic simulation: traversal callbacks interrupted (skip/stop, returned or raised) at chosen invocations on states reached by seeded histories; PRNG seam for RANDOM_ORDER",
+            "level_text": "Weaker fit (quantifier is inputs): the simulator contributes the "
+                          "interruption point of the callback, the PRNG seam and the odd states "
+                          "long histories reach; order oracle from the reference model.",
+            "level_note": _TB},
+    "C12": {"engine": "StoreSim (reference peer)", "design_ref": "DESIGN.md section 4 C12",
+            "technique": "deterministic simulation with an in-process fake peer: bytes written at restart steps are decoded by an independent codec of the documented layout; documents from the independent encoder are loaded",
+            "level_text": "nutree talks to an independent implementation of its file format "
+                          "instead of to itself, which is what catches a change made consistently "
+                          "to writer and reader. Writing side at every restart step of seeded "
+                          "histories, reading side on documents produced by the reference encoder, "
+                          "the user guide's literal examples and mutilated headers.",
+            "level_note": _TB + " The reference codec (simkit/store.py) is written from "
+                                "docs/sphinx/ug_serialize.rst."},
+    "C14": {"engine": "StoreSim+HistorySim", "design_ref": "DESIGN.md section 4 C14",
+            "technique": "deterministic simulation: restart through the dict form (to_dict_list, optional JSON dump/load, from_dict) inside seeded histories",
+            "level_text": "Weaker fit (quantifier is inputs): second restart path; the structure "
+                          "must mirror the model and the rebuilt tree equals the model projected; "
+                          "reached states include the empty and the cleared tree.",
+            "level_note": _TB + " Untyped trees only (from_dict returns a plain Tree)."},
+    "C18": {"engine": "SchedSim", "design_ref": "DESIGN.md sections 2.6 and 4 C18",
+            "technique": "deterministic simulation: seeded thread schedules (baton-passed real threads, simulated RLock, settrace line pre-emption), snapshot linearizability over the recorded history",
+            "level_text": "The property quantifies over schedules; the simulator decides every "
+                          "interleaving of writer critical sections with snapshot operations and "
+                          "checks each snapshot against the set of committed states in its "
+                          "invoke/return window, plus mutual exclusion, re-entrancy/deadlock, "
+                          "lock leak after faults and bounded liveness. Seeded search, not "
+                          "exhaustive enumeration.",
+            "level_note": "Trusted: CPython threads/semaphores used for baton passing, sys.settrace, "
+                          "the SimRLock implementing the RLock interface. Pre-emption does not split "
+                          "a single source line. Writers that mutate outside `with tree:` and "
+                          "node-level copy()/filtered() are outside the property."},
     "C01": {"engine": "HistorySim", "design_ref": "DESIGN.md section 4 C01",
             "technique": "deterministic simulation: seeded operation/fault histories, invariant oracle after every step",
             "level_text": "Seeded search over mutation histories with refused operations and callback "
